@@ -13,6 +13,8 @@ def job_ops(job, plan):
     rng = common.Rng(job["seed"])
     sizes = cr.gen_sizes(rng, plan)
     ops = [cr.create_line(job["cfg"]), "limit %d" % job["N"], "delay"]
+    if rng.chance(.35):
+        ops.append("stale %d" % rng.choice([1, 37, 300, 100000]))
     cap = [10 ** 9, 60, 3000, 10 ** 9][rng.below(4)]
     for i in range(rng.choice([3, 10, 40, 120])):
         il = min(rng.choice(sizes) if rng.chance(.6) else rng.below(3000), cap)
